@@ -138,17 +138,16 @@ def split_verus_errors(stderr):
     return ['\n'.join(b) for b in blocks]
 
 
-def classify_verus(res, line_map=None):
+def classify_verus(res, canary=None):
     """Returns (status, failures, inconclusive_reason).
-    status in {'ok','violation','inconclusive'}; failures = list of dicts(kind, line, text)."""
+    status in {'ok','violation','inconclusive'}; failures = list of dicts(kind, line, text).
+    With canary='<fn name>': the file contains a deliberately false proof fn; it must be the subject of
+    exactly one failure (vacuity guard) and is then removed from the failures."""
     j = res['json']
     se = res['stderr']
-    blocks = [b for b in split_verus_errors(se) if b.startswith('error')]
-    vr = (j or {}).get('verification-results') if j else None
-    if res['rc'] == 0 and vr and vr.get('success') and vr.get('errors') == 0 and not vr.get('encountered-vir-error'):
-        return 'ok', [], None
     if res['rc'] == -9:
         return 'inconclusive', [], 'verus timed out'
+    blocks = [b for b in split_verus_errors(se) if b.startswith('error')]
     fails = []
     incon = []
     for b in blocks:
@@ -160,14 +159,29 @@ def classify_verus(res, line_map=None):
             if m in first:
                 kind = m
                 break
-        if kind and not any(x in first for x in ('rlimit', 'Resource limit')):
+        if kind and not any(x in b for x in ('rlimit', 'Resource limit')):
             locs = re.findall(r'-->\s*[^:\s]+:(\d+):(\d+)', b)
             fails.append({'kind': kind, 'line': int(locs[0][0]) if locs else None, 'text': b})
         else:
             incon.append(b)
-    if incon or not fails:
-        reason = ('\n'.join(incon) if incon else 'verus failed without a classified error: rc=%s\n%s' % (res['rc'], se[-2000:]))
-        return 'inconclusive', fails, reason
+    if incon:
+        return 'inconclusive', fails, '\n'.join(incon)[:6000]
+    vr = (j or {}).get('verification-results') if j else None
+    if vr is None:
+        return 'inconclusive', fails, 'verus produced no result: rc=%s\n%s' % (res['rc'], se[-2000:])
+    if canary:
+        cf = [f for f in fails if canary in f['text']]
+        if len(cf) != 1:
+            return 'inconclusive', fails, ('vacuity canary %s did not fail exactly once (%d): the unit may be inconsistent '
+                                           '(an assumed contract proves false)' % (canary, len(cf)))
+        fails = [f for f in fails if canary not in f['text']]
+        expected_errors = 1
+    else:
+        expected_errors = 0
+    if not fails:
+        if vr.get('errors') == expected_errors and vr.get('verified', 0) > 0 and not vr.get('encountered-vir-error'):
+            return 'ok', [], None
+        return 'inconclusive', [], 'verus reported errors that were not classified: %s\n%s' % (vr, se[-2000:])
     return 'violation', fails, None
 
 
